@@ -101,6 +101,7 @@ func (v *Verifier) verifyFunc(key string) {
 			v.obls = append(v.obls, o)
 		}
 		x.entry = st.clone()
+		c.nEntry = len(c.assert)
 		x.run(st)
 		for n := range c.notes {
 			rep.Notes = append(rep.Notes, n)
@@ -138,20 +139,186 @@ func (x *Exec) checkEnsures(st *State, res []Val, pos token.Pos) {
 // ---------------------------------------------------------------------
 // discharging
 
-func (o *Obligation) query() string {
+func (o *Obligation) query() string { return o.queryWith(false) }
+
+func (o *Obligation) queryWith(slice bool) string {
 	c := o.ctx
 	var b strings.Builder
 	b.WriteString("; obligation " + o.Name + "\n")
 	b.WriteString(c.preamble())
-	for _, a := range c.assert[:o.nAssert] {
-		b.WriteString("(assert " + a + ")\n")
+	final := and(o.guard, not(o.goal))
+	var keep []bool
+	if slice {
+		keep = c.relevant(o.nAssert, append([]string{final}, o.extra...))
+	}
+	for i, a := range c.assert[:o.nAssert] {
+		if keep == nil || keep[i] {
+			b.WriteString("(assert " + a + ")\n")
+		}
 	}
 	for _, a := range o.extra {
 		b.WriteString("(assert " + a + ")\n")
 	}
-	b.WriteString("(assert " + and(o.guard, not(o.goal)) + ")\n")
+	b.WriteString("(assert " + final + ")\n")
 	b.WriteString("(check-sat)\n")
 	return b.String()
+}
+
+// freshSyms lists the generated symbols (those containing '!') of a term.
+func freshSyms(t string) []string {
+	var out []string
+	start := -1
+	bang := false
+	for i := 0; i <= len(t); i++ {
+		var ch byte = ' '
+		if i < len(t) {
+			ch = t[i]
+		}
+		if ch == ' ' || ch == '(' || ch == ')' {
+			if start >= 0 && bang && !strings.HasPrefix(t[start:i], "alloc") && !strings.HasPrefix(t[start:i], "q_") {
+				out = append(out, t[start:i])
+			}
+			start, bang = -1, false
+			continue
+		}
+		if start < 0 {
+			start = i
+		}
+		if ch == '!' {
+			bang = true
+		}
+	}
+	return out
+}
+
+// relevant computes a directed cone of influence of the goal among the
+// first n assertions.  Generated symbols become relevant through the goal and
+// through the definitions "(= sym term)" of relevant symbols.  A definition
+// is kept iff it defines a relevant symbol; a guarded fact "(=> G fact)" is
+// kept iff every generated symbol of G is relevant (facts of sibling branches
+// are dropped); any other fact is kept iff it mentions no generated symbol or
+// shares one with the relevant set.  Dropping assumptions is always sound.
+func (c *Ctx) relevant(n int, seeds []string) []bool {
+	if os.Getenv("GOVC_NO_SLICE") != "" {
+		return nil
+	}
+	c.symMu.Lock()
+	if c.symCache == nil || len(c.symCache) < len(c.assert) {
+		c.symCache = make([]assertInfo, len(c.assert))
+		for i, a := range c.assert {
+			c.symCache[i] = analyseAssert(a)
+		}
+	}
+	infos := c.symCache
+	c.symMu.Unlock()
+	rel := map[string]bool{}
+	for _, s := range seeds {
+		for _, y := range freshSyms(s) {
+			rel[y] = true
+		}
+	}
+	keep := make([]bool, n)
+	// the function's entry assumptions (parameter well-formedness, preconditions) always count
+	for i := 0; i < n && i < c.nEntry; i++ {
+		keep[i] = true
+		for _, y := range infos[i].syms {
+			rel[y] = true
+		}
+		if infos[i].def != "" {
+			rel[infos[i].def] = true
+		}
+	}
+	// pass 1 (backwards): definitions of relevant symbols; guarded facts whose guard is
+	// relevant make their own symbols relevant too (they constrain values used on the path)
+	for round := 0; round < 6; round++ {
+		changed := false
+		for i := n - 1; i >= 0; i-- {
+			if keep[i] {
+				continue
+			}
+			in := infos[i]
+			switch {
+			case in.def != "":
+				if rel[in.def] || strings.HasPrefix(in.def, "alloc") {
+					keep[i] = true
+					changed = true
+					for _, y := range in.syms {
+						rel[y] = true
+					}
+				}
+			case len(in.guard) > 0:
+				ok := true
+				for _, g := range in.guard {
+					if !rel[g] {
+						ok = false
+					}
+				}
+				hit := false
+				for _, y := range in.body {
+					if rel[y] {
+						hit = true
+					}
+				}
+				if ok && (hit || len(in.body) == 0) {
+					keep[i] = true
+					changed = true
+					for _, y := range in.body {
+						rel[y] = true
+					}
+				}
+			}
+		}
+		if !changed {
+			break
+		}
+	}
+	for i := 0; i < n; i++ {
+		in := infos[i]
+		if keep[i] || in.def != "" || len(in.guard) > 0 {
+			continue
+		}
+		if len(in.syms) == 0 {
+			keep[i] = true
+			continue
+		}
+		for _, y := range in.syms {
+			if rel[y] {
+				keep[i] = true
+				break
+			}
+		}
+	}
+	return keep
+}
+
+type assertInfo struct {
+	syms  []string // all generated symbols
+	def   string   // "(= sym term)": the defined symbol
+	guard []string // "(=> G fact)": generated symbols of G
+	body  []string // ... and of fact
+}
+
+func analyseAssert(a string) assertInfo {
+	in := assertInfo{syms: freshSyms(a)}
+	if strings.HasPrefix(a, "(= ") {
+		rest := a[3:]
+		if j := strings.IndexByte(rest, ' '); j > 0 && !strings.HasPrefix(rest, "(") && strings.Contains(rest[:j], "!") {
+			in.def = rest[:j]
+			in.syms = freshSyms(rest[j:])
+			return in
+		}
+	}
+	if strings.HasPrefix(a, "(=> ") {
+		parts := splitSexp(a[4 : len(a)-1])
+		if len(parts) == 2 {
+			in.guard = freshSyms(parts[0])
+			in.body = freshSyms(parts[1])
+			if len(in.guard) == 0 {
+				in.guard = nil
+			}
+		}
+	}
+	return in
 }
 
 func (v *Verifier) discharge(obls []*Obligation, dir string, timeoutS int, thorough bool, jobs int) {
@@ -179,6 +346,10 @@ func (v *Verifier) discharge(obls []*Obligation, dir string, timeoutS int, thoro
 				q := ""
 				if phase == 1 {
 					q = o.query()
+				} else {
+					// an extra, sliced variant of the query (cone of influence of the goal): a proof
+					// from fewer assumptions is a proof; any other answer of the sliced query is ignored
+					os.WriteFile(filepath.Join(dir, names[i]+".sl.smt2"), []byte(o.queryWith(true)), 0o644)
 				}
 				res := solve(q, dir, names[i], timeoutS, thorough, phase)
 				if o.Kind == "requires-sat" {
@@ -206,6 +377,7 @@ func (v *Verifier) discharge(obls []*Obligation, dir string, timeoutS int, thoro
 				if res.Status == "unsat" {
 					os.Remove(filepath.Join(dir, names[i]+".smt2"))
 				}
+				os.Remove(filepath.Join(dir, names[i]+".sl.smt2"))
 			}(i, o)
 		}
 		wg.Wait()
